@@ -113,7 +113,7 @@ exactly `k` (the root's range end moves by `k`; the static `xml` namespace entry
 nothing else — same nodes, links, names, values, namespaces. -/
 theorem shift_equivariance (txt : Bytes) (opt : Opt) (d : Doc) (k : Nat)
     (hbom : Stream.startsWith ⟨0, txt⟩ Lit.bom = false)
-    (hdecl : Stream.startsWith ⟨0, txt⟩ Lit.xmlDecl = false)
+    (hdecl : Stream.startsWithXmlDecl Generated.tables ⟨0, txt⟩ = false)
     (h : parse Generated.tables txt opt = .ok d) :
     parse Generated.tables (List.replicate k 32 ++ txt) opt =
       .ok (Rox.Lemmas.shiftDoc k opt.positions d) :=
@@ -122,7 +122,7 @@ theorem shift_equivariance (txt : Bytes) (opt : Opt) (d : Doc) (k : Nat)
 /-- **Shift equivariance, line breaks**: the same with `k` line feeds in front. -/
 theorem shift_equivariance_line_breaks (txt : Bytes) (opt : Opt) (d : Doc) (k : Nat)
     (hbom : Stream.startsWith ⟨0, txt⟩ Lit.bom = false)
-    (hdecl : Stream.startsWith ⟨0, txt⟩ Lit.xmlDecl = false)
+    (hdecl : Stream.startsWithXmlDecl Generated.tables ⟨0, txt⟩ = false)
     (h : parse Generated.tables txt opt = .ok d) :
     parse Generated.tables (List.replicate k 10 ++ txt) opt =
       .ok (Rox.Lemmas.shiftDoc k opt.positions d) :=
